@@ -17,6 +17,11 @@ VALUE_POOL = [
 ]
 
 
+def _tree(rnd, depth=0):
+    kids = [] if depth >= 2 else [_tree(rnd, depth + 1) for _ in range(rnd.choice([0, 1, 2]))]
+    return J.vdict([(J.vstr("n"), rnd.choice([J.vstr(META), J.vstr("p"), J.vint(depth)])), (J.vstr("k"), J.vlist(kids))])
+
+
 def datas_for(rnd, names, n, pool=None, always_empty=True):
     pool = pool or VALUE_POOL
     out = [{}] if always_empty else []
@@ -25,6 +30,7 @@ def datas_for(rnd, names, n, pool=None, always_empty=True):
         for nm in names:
             if rnd.random() < 0.8:
                 d[nm] = rnd.choice(pool)
+        d["tr"] = J.vlist([_tree(rnd) for _ in range(rnd.choice([1, 2]))])
         out.append(d)
     return out
 
@@ -39,6 +45,7 @@ class StmtGen:
         self.f = features or set()
         self.auto = auto
         self.macros = []        # (name, nparams) defined so far (generator-level knowledge)
+        self.frags = []         # names bound to rendered fragments (set blocks)
         self.nmac = 0
         self.budget = 0
 
@@ -124,6 +131,20 @@ class StmtGen:
         r = rnd.random()
         if depth <= 0:
             r = r * 0.42
+        if r < 0.04 and (self.macros or self.frags):
+            # a rendered fragment as an operand of ~ (it must keep its safe flag: C15 / C16)
+            if self.macros and (not self.frags or rnd.random() < 0.6):
+                m, np_ = rnd.choice(self.macros)
+                frag = J.Call(N(m), [self.atom(inloop) for _ in range(np_)])
+            else:
+                frag = N(rnd.choice(self.frags))
+            other = rnd.choice([N(self.name()), C(META), C("s")])
+            return J.Out(J.Concat(*([frag, other] if rnd.random() < 0.5 else [other, frag])))
+        if r < 0.07 and "recursive" in self.f:
+            v = rnd.choice(["t", "u"])
+            return J.For(J.TName(v), N("tr"), [J.Out(J.Getattr(N(v), "n")), J.Text("("), J.Out(J.Call(N("loop"), [J.Getattr(N(v), "k")])),
+                                                  J.Text(")")] + ([J.Out(J.Getattr(N("loop"), "depth"))] if rnd.random() < 0.4 else []),
+                         recursive=True)
         if r < 0.22:
             return J.Out(self.expr(2, inloop))
         if r < 0.27:
@@ -159,7 +180,8 @@ class StmtGen:
             self.names = self.names + params
             defaults = []
             for i in range(nd):
-                defaults.append(rnd.choice([C(7), N(self.name()), N("p0") if (np_ - nd + i) >= 1 else C(8)]))
+                own = params[np_ - nd + i]
+                defaults.append(rnd.choice([C(7), N(self.name()), N("p0") if (np_ - nd + i) >= 1 else C(8), N(own)]))
             body = self.body(depth - 1, False, True)
             if rnd.random() < 0.25:
                 body.append(J.Out(N(rnd.choice(["varargs", "kwargs"]))) if False else J.Out(J.Filter(N("varargs"), "length")))
@@ -168,7 +190,10 @@ class StmtGen:
             self.macros.append((name, np_))
             return m
         if r < 0.89:
-            return J.SetBlock(self.name(), self.body(depth - 1, inloop, inmacro),
+            tgt = self.name()
+            if tgt not in self.frags:
+                self.frags.append(tgt)
+            return J.SetBlock(tgt, self.body(depth - 1, inloop, inmacro),
                               None if "neutral" in self.f else rnd.choice([None, None, "string", "e"]))
         if r < 0.93:
             return J.FilterBlock("default" if "neutral" in self.f else rnd.choice(["string", "e", "default"]),
@@ -191,6 +216,7 @@ class StmtGen:
     def program(self, size=8, depth=3):
         self.budget = size
         self.macros = []
+        self.frags = []
         body = []
         while self.budget > 0:
             body.append(self.stmt(depth))
@@ -629,6 +655,9 @@ def expr_cases(seed, n, start_id=1, depth=3, auto=None):
     for i in range(n):
         a = rnd.random() < 0.5 if auto is None else auto
         e = g.gany(rnd.randint(1, depth))
+        if rnd.random() < 0.06:
+            # a filter and a test of the same name in one expression (distinct registries)
+            e = J.Concat(J.Filter(g.gany(1), "string"), J.Cond(J.Test(g.gany(1), "string"), g.gstr(1), g.gint(1)))
         c = J.make_case(start_id + i, {"main": J.template([J.Out(e)], a)}, "main", datas, objs=EXPR_OBJS,
                         undefined=rnd.choice(["default", "default", "default", "strict", "chainable"]))
         c["emit_values"] = True
@@ -821,3 +850,51 @@ def fault_variants(base, obs, start_id):
 def json_dumps(x):
     import json
     return json.dumps(x)
+
+
+# ---------------------------------------------------------------------------
+# nested scope patterns (C03): a name bound by an outer frame, assigned conditionally or
+# unconditionally two to four frames further in, and read at every level afterwards
+# ---------------------------------------------------------------------------
+
+def scope_pattern(rnd):
+    x = "a"
+    kinds = [rnd.choice(["for", "with", "macro", "setblock", "filterblock", "for"]) for _ in range(rnd.randint(2, 4))]
+    inner = []
+    r = rnd.random()
+    cond = rnd.choice([N("c"), J.Cmp(N("j"), ("eq", C(2))), C(True), C(False), J.Test(N("b"), "defined")])
+    setter = J.Set(x, rnd.choice([C(9), J.Bin("+", J.Filter(N(x), "default", [C(0)]), C(1)), N("b")]))
+    if r < 0.6:
+        inner.append(J.If([cond], [[setter]], [J.Set(x, C(8))] if rnd.random() < 0.2 else None))
+    elif r < 0.8:
+        inner.append(setter)
+    else:
+        inner.append(J.If([cond], [[J.Text("t")]], [setter]))
+    inner.append(J.Out(N(x)))
+    body = inner
+    for depth, k in enumerate(reversed(kinds)):
+        outermost = depth == len(kinds) - 1
+        tail = [J.Text("|"), J.Out(N(x))]
+        if k == "for":
+            var = x if outermost else rnd.choice(["j", "i", x])
+            body = [J.For(J.TName(var), J.List([C(1), C(2)]), body + tail)]
+        elif k == "with":
+            var = x if outermost else rnd.choice(["w", x])
+            body = [J.With([(var, C(5))], body + tail)]
+        elif k == "macro":
+            name = f"m{depth}"
+            params = [x] if outermost else rnd.choice([[], ["q"], [x]])
+            body = [J.Macro(name, params, [C(3)] * len(params) if rnd.random() < 0.5 else [], body + tail),
+                    J.Out(J.Call(N(name), [C(4)] if params and rnd.random() < 0.6 else []))]
+        elif k == "setblock":
+            body = [J.SetBlock("sb", body + tail), J.Out(N("sb"))]
+        else:
+            body = [J.FilterBlock("default", body + tail)]
+    return [J.Text("[")] + body + [J.Text("]"), J.Out(N(x))]
+
+
+def scope_cases(seed, n, start_id=1):
+    rnd = random.Random(seed)
+    datas = [{}, {"a": J.vint(7), "b": J.vint(6), "c": J.vbool(True)}, {"a": J.vstr("A"), "c": J.vbool(False)},
+             {"b": J.vint(0), "c": J.vbool(True)}]
+    return [J.make_case(start_id + i, {"main": J.template(scope_pattern(rnd), False)}, "main", datas) for i in range(n)]
